@@ -813,6 +813,66 @@ def check_refusal_schedules(rep, rng, thorough):
             rep.violation(sig, 'the broker refused after %s with code %d; open() gave %r' % (at, code, r.get('res')), replay)
 
 
+def reopen_after_drop_one(args):
+    """history: the connection is established, the broker drops the TCP connection and nobody has polled the connection yet
+    (its state flag still says OPEN); the application re-opens the same object.  open() must run a handshake of its own and
+    report its outcome: success only after that handshake's Connection.OpenOk, AMQPConnectionError(code) if it is refused."""
+    at, code, seed = args
+    import amqpstorm
+    from harness import refbroker, vrt
+    policy = refbroker.Policy()
+    out = {}
+
+    def scenario(ctx):
+        conn = amqpstorm.Connection('localhost', 'guest', 'guest', heartbeat=0, timeout=5)
+        first = ctx.net.brokers[0]
+        first.close_socket()
+        # the reader notices the drop and records it (it then ends); nobody polls the connection, so its state stays OPEN.
+        # (Re-opening while the old reader is still alive - before it has seen the end of the stream - is not a history the
+        # properties speak about: the list is read here without calling any check.)
+        for _ in range(5000):
+            if conn._exceptions and all(t.done for t in ctx.sched.threads if t.kind == 'lib-thread' and t.started):
+                break                      # the error is recorded and the reader thread has ended
+            amqpstorm.connection.time.sleep(0.001)
+        out['recorded'] = len(conn._exceptions)
+        if at is not None:
+            policy.refuse_at = at
+            policy.refuse_code = code
+        try:
+            conn.open()
+            out['res'] = ('opened', None)
+        except amqpstorm.AMQPConnectionError as why:
+            out['res'] = ('connection-error', why.error_code)
+        except BaseException as why:   # noqa
+            out['res'] = ('other', type(why).__name__)
+        out['handshakes'] = len(ctx.net.brokers)
+        out['openok_sent'] = [b.state for b in ctx.net.brokers]
+        out['is_open'] = conn.is_open
+        try:
+            conn.close()
+        except amqpstorm.AMQPError:
+            pass
+    ctx = vrt.run_scenario(scenario, refbroker.factory(policy), seed=seed, p_preempt=0.2, fair_time=(seed % 2 == 1),
+                           repo_path=str(common.REPO))
+    out['abort'] = ctx.sched.abort_reason
+    return out
+
+
+def check_reopen_after_drop(rep, rng, thorough):
+    from harness import par
+    jobs = [(rng.choice([None, 'start-ok', 'tune-ok', 'open']), rng.choice([403, 530, 541]), rng.randrange(1 << 30))
+            for _ in range(40 if not thorough else 800)]
+    for (at, code, seed), r in zip(jobs, par.pmap(reopen_after_drop_one, jobs)):
+        rep.case(('reopen-after-drop', at, code, seed), True)
+        rep.count('kind', 'reopen-after-drop')
+        replay = {'reopen_after_drop': {'at': at, 'code': code, 'seed': seed}}
+        want = ('opened', None) if at is None else ('connection-error', code)
+        if r.get('res') != want or r.get('handshakes', 0) < 2:
+            sig = 'C09/reopen-reports-success-without-handshake' if r.get('res') == ('opened', None) and at is not None else 'C09/reopen-outcome'
+            rep.violation(sig, 're-opening a connection the broker had dropped (state not yet polled), broker %s: open() gave %r after %d '
+                          'handshake(s)' % ('accepts' if at is None else 'refuses after %s with %d' % (at, code), r.get('res'), r.get('handshakes', 0)), replay)
+
+
 def check(rep):
     rng = random.Random(common.seed() * 1000003 + 9)
     thorough = rep.tier == 'thorough'
@@ -844,6 +904,7 @@ def check(rep):
     check_tune_direct(rep, rng, thorough, lines, expect, meta)
     check_mech_direct(rep, rng, thorough, lines, expect, meta)
     check_refusal_schedules(rep, rng, thorough)
+    check_reopen_after_drop(rep, rng, thorough)
     rep.exhaustive = False
     if rep.build.driver_ok:
         got = common.run_driver(lines)
@@ -857,6 +918,13 @@ def check(rep):
 
 def replay(data):
     r = data['replay']
+    if 'reopen_after_drop' in r:
+        q = r['reopen_after_drop']
+        o = reopen_after_drop_one((q['at'], q['code'], q['seed']))
+        want = ('opened', None) if q['at'] is None else ('connection-error', q['code'])
+        print(o)
+        print('VIOLATION reproduced' if o.get('res') != want else 'property holds on this input')
+        return 1 if o.get('res') != want else 0
     if 'refusal_schedule' in r:
         d = r['refusal_schedule']
         out = refusal_one((d['at'], d['code'], d['seed']))
